@@ -25,7 +25,7 @@ REQUIRED_THEOREMS = ['weekday_resolve', 'duration_seconds', 'year_range', 'month
                      'dates_matching_day_spec', 'evaluate_monthday_stage_sound', 'evaluate_timerange_stage_sound',
                      'evaluate_sound', 'evaluate_dateOnly_eq', 'evaluate_complete_monthday',
                      'stages234_sound', 'evaluate_sound_durations', 'evaluate_complete_hours',
-                     'monthday_stage_never_raises']
+                     'monthday_stage_never_raises', 'evaluate_sound_grammar']
 RULE = ('resolve: weekday TIMEXes XXXX-WXX-0..9 (with and without a time) x every day 1950-01-01..2090-12-31 in '
         'thorough (quick: every day of 2019-2021, the first/last ten days of every year, seeded days), XXXX-MM / '
         'XXXX-MM-DD x one reference per year + seeded, YYYY / YYYY-MM (all 12) / YYYY-Www (00-54) / durations (all '
